@@ -9,6 +9,10 @@ from .engine import OutOfReach, PyRaise
 SEP = "\x00"
 
 
+class KeyTypeMismatch(Exception):
+    pass
+
+
 class AbstractMap(object):
     def __init__(self, ctx, name, pair_keys=False):
         S = z3.StringSort()
@@ -28,7 +32,7 @@ class AbstractMap(object):
     def key(self, I, k):
         if self.pair_keys:
             if not (isinstance(k, tuple) and len(k) == 2):
-                raise OutOfReach("pair-keyed map read with %r" % (k,))
+                raise KeyTypeMismatch()
             ns, local = k
             nz = z3.StringVal("") if ns is None else zs(ns)
             flag = z3.StringVal("N") if ns is None else z3.StringVal("S")
@@ -38,7 +42,10 @@ class AbstractMap(object):
         return zs(k)
 
     def has(self, I, k):
-        return z3.Select(self.present, self.key(I, k))
+        try:
+            return z3.Select(self.present, self.key(I, k))
+        except KeyTypeMismatch:
+            return False          # a str is never equal to a (namespace, name) pair
 
     def nonempty(self, I):
         return self.size > 0
